@@ -556,6 +556,21 @@ impl Ctx {
         e.count += 1;
     }
 
+    /// An artefact that must be rejected was accepted ONCE but not again under fresh independent keys /
+    /// randomness. In a field of >= 64 bits a genuine soundness fluke has probability below 2^-40 per
+    /// attempt, so what was observed is an acceptance that depends on something other than validity: the
+    /// particular key, or state left behind by earlier calls (a memo / cache keyed too narrowly). That is a
+    /// violation of the "rejected except with negligible probability" clause. In smaller fields (Prio2's
+    /// 32-bit field) a single acceptance is a plausible fluke and is only counted.
+    pub fn sporadic(&mut self, field_bits: u32, signature: impl Into<String>, witness: Value) {
+        self.count("soundness_flukes");
+        if field_bits >= 64 {
+            self.violation(format!("{}|accepted-once-not-reproducible", signature.into()),
+                "an artefact that must be rejected was accepted, but not again under fresh independent keys: in a field of >= 64 bits a soundness fluke (< 2^-40) does not explain it; \
+                 acceptance depends on the particular key or on state left by earlier calls", witness);
+        }
+    }
+
     pub fn trace(&self, s: impl FnOnce() -> String) {
         if self.trace {
             eprintln!("TRACE[{}:{}] {}", self.prop, self.shard, s());
